@@ -4,6 +4,9 @@ import json, os
 
 ROOT = os.path.dirname(os.path.dirname(os.path.abspath(__file__)))
 checks = json.load(open(os.path.join(ROOT, "checks.json")))
+import glob
+for f in sorted(glob.glob(os.path.join(ROOT, "harness", "checks", "*", "check.json"))):
+    checks.update(json.load(open(f)))
 props = [json.loads(l) for l in open(os.path.join(ROOT, "properties.jsonl"))]
 hooks_commits = []
 hf = os.path.join(ROOT, "hooks_commits.txt")
